@@ -19,6 +19,11 @@ pub struct RawSearcher {
     pub teddy_buckets: Vec<Vec<u32>>,
     pub teddy_masks: Vec<([u8; 16], [u8; 16])>,
     pub teddy_rebuildable: bool,
+    /// 0 = 128-bit slim (SSSE3), 1 = slim AVX2 (128-bit + 256-bit halves),
+    /// 2 = fat AVX2
+    pub teddy_variant: u8,
+    pub teddy_buckets256: Vec<Vec<u32>>,
+    pub teddy_masks256: Vec<([u8; 32], [u8; 32])>,
 }
 
 pub fn to_raw(s: &Searcher) -> RawSearcher {
@@ -37,6 +42,9 @@ pub fn to_raw(s: &Searcher) -> RawSearcher {
         teddy_buckets: Vec::new(),
         teddy_masks: Vec::new(),
         teddy_rebuildable: false,
+        teddy_variant: 0,
+        teddy_buckets256: Vec::new(),
+        teddy_masks256: Vec::new(),
     };
     #[cfg(all(target_arch = "x86_64", target_feature = "sse2"))]
     if let SearchKind::Teddy(ref t) = s.search_kind {
@@ -46,6 +54,14 @@ pub fn to_raw(s: &Searcher) -> RawSearcher {
         if let Some((b, m)) = tables {
             raw.teddy_buckets = b;
             raw.teddy_masks = m;
+            raw.teddy_rebuildable = true;
+        }
+        if let Some((v, b, m)) =
+            crate::packed::teddy::verif::builder::x86::describe256(t)
+        {
+            raw.teddy_variant = v;
+            raw.teddy_buckets256 = b;
+            raw.teddy_masks256 = m;
             raw.teddy_rebuildable = true;
         }
     }
@@ -67,6 +83,9 @@ pub fn from_parts(
     teddy_buckets: &'static [&'static [u32]; 8],
     teddy_masks: &'static [([u8; 16], [u8; 16])],
     minimum_len: usize,
+    teddy_variant: u8,
+    teddy_buckets256: &'static [&'static [u32]; 16],
+    teddy_masks256: &'static [([u8; 32], [u8; 32])],
 ) -> Searcher {
     let patterns =
         Arc::new(pv::from_parts(kind, by_id, order, patterns_minimum_len));
@@ -79,12 +98,24 @@ pub fn from_parts(
     #[cfg(all(target_arch = "x86_64", target_feature = "sse2"))]
     let search_kind = {
         use crate::packed::teddy::verif::builder::x86;
-        match teddy_bytes {
+        let p = || Arc::clone(&patterns);
+        match (teddy_variant, teddy_bytes) {
+            (_, 0) => SearchKind::RabinKarp,
+            (1, 1) => SearchKind::Teddy(x86::slim_avx2_1(p(), teddy_buckets, teddy_masks, teddy_buckets256, teddy_masks256)),
+            (1, 2) => SearchKind::Teddy(x86::slim_avx2_2(p(), teddy_buckets, teddy_masks, teddy_buckets256, teddy_masks256)),
+            (1, 3) => SearchKind::Teddy(x86::slim_avx2_3(p(), teddy_buckets, teddy_masks, teddy_buckets256, teddy_masks256)),
+            (1, _) => SearchKind::Teddy(x86::slim_avx2_4(p(), teddy_buckets, teddy_masks, teddy_buckets256, teddy_masks256)),
+            (2, 1) => SearchKind::Teddy(x86::fat_avx2_1(p(), teddy_buckets256, teddy_masks256)),
+            (2, 2) => SearchKind::Teddy(x86::fat_avx2_2(p(), teddy_buckets256, teddy_masks256)),
+            (2, 3) => SearchKind::Teddy(x86::fat_avx2_3(p(), teddy_buckets256, teddy_masks256)),
+            (2, _) => SearchKind::Teddy(x86::fat_avx2_4(p(), teddy_buckets256, teddy_masks256)),
+            (_, b) => match b {
             0 => SearchKind::RabinKarp,
             1 => SearchKind::Teddy(x86::slim_ssse3_1(Arc::clone(&patterns), teddy_buckets, teddy_masks)),
             2 => SearchKind::Teddy(x86::slim_ssse3_2(Arc::clone(&patterns), teddy_buckets, teddy_masks)),
             3 => SearchKind::Teddy(x86::slim_ssse3_3(Arc::clone(&patterns), teddy_buckets, teddy_masks)),
             _ => SearchKind::Teddy(x86::slim_ssse3_4(Arc::clone(&patterns), teddy_buckets, teddy_masks)),
+            },
         }
     };
     #[cfg(not(all(target_arch = "x86_64", target_feature = "sse2")))]
